@@ -365,3 +365,48 @@ def real_batch(texts):
         elif i < len(texts) and not got:
             raise RuntimeError('lp child produced nothing: ' + p.stderr[-300:])
     return res
+
+
+class RealLoader:
+    """`lp.loads` one text at a time in a long-lived child interpreter, restarted when it dies: an `assert` of the C++
+    code (interpreter abort) is an observed outcome ('abort',), not the end of the check"""
+
+    def __init__(self):
+        self.p = None
+
+    def _start(self):
+        self.p = subprocess.Popen([sys.executable, '-c', CHILD], stdin=subprocess.PIPE, stdout=subprocess.PIPE, text=True, bufsize=1, env=dict(os.environ))
+
+    def loads(self, text):
+        if self.p is None or self.p.poll() is not None:
+            self._start()
+        try:
+            self.p.stdin.write(text.encode().hex() + '\n')
+            self.p.stdin.flush()
+        except BrokenPipeError:
+            self.p = None
+            return ('abort',)
+        while True:
+            ln = self.p.stdout.readline()
+            if not ln:
+                self.p.wait()
+                self.p = None
+                return ('abort',)
+            if '@@' in ln:
+                o = json.loads(ln[ln.index('@@') + 2:])
+                if o[0] == 'ok':
+                    dec = lambda e: {tuple(k): F(b) for k, b in e}  # noqa: E731
+                    return ('ok', ([(v, k, F(lo), F(hi)) for v, k, lo, hi in o[1]], dec(o[2]), [(l, s_, F(rhs), dec(e)) for l, s_, rhs, e in o[3]]))
+                return tuple(o)
+
+    def loads_or_raise(self, text):
+        """the canonical reading, or an exception naming what happened"""
+        res = self.loads(text)
+        if res[0] == 'ok':
+            return res[1]
+        raise RuntimeError({'abort': 'interpreter aborted (assertion of the C++ code)', 'nonfinite': 'a non-finite number was read'}.get(res[0], ' '.join(map(str, res[1:]))))
+
+    def close(self):
+        if self.p is not None and self.p.poll() is None:
+            self.p.stdin.close()
+            self.p.wait()
